@@ -1,7 +1,7 @@
 (** C12 - Cancellation is safe and prompt at any moment.   (partial: see the end of this file) *)
 From Coq Require Import List Arith Bool.
 Import ListNotations.
-From TaskctlV Require Import Model.Cancel Proofs.CancelInv.
+From TaskctlV Require Import Model.Sched Model.Cancel Model.Pipe Proofs.CancelInv Proofs.PipeSpec.
 
 (* [xreach ncmds es s]: any number of runs (run i has ncmds i commands, hooks included) and any number of Cancel calls,
    interleaved in any order [es] - zero, one or many tasks in flight, Cancel before, during, between, after, twice. *)
@@ -39,7 +39,7 @@ Theorem C12_success_means_everything_ran : forall ncmds es s i, xreach ncmds es 
 Proof. exact success_means_everything_ran. Qed.
 Print Assumptions C12_success_means_everything_ran.
 
-Theorem C12_run_after_cancel_fails : forall ncmds s i s1 s2, cancelled s = true -> rp s i = RNew ->
+Theorem C12_run_after_cancel_fails : forall ncmds s i s1 s2, Cancel.cancelled s = true -> rp s i = RNew ->
   xstep ncmds s (ERun i) = Some s1 -> xstep ncmds s1 (ERun i) = Some s2 -> rp s2 i = RLeaving true.
 Proof. exact run_after_cancel_fails. Qed.
 Print Assumptions C12_run_after_cancel_fails.
@@ -49,6 +49,74 @@ Example C12_nonvacuous : exists s,
   xreach (fun _ => 2) [ERun 0; ERun 1; ERun 0; ERun 1; ERun 0; ERun 1; ECan 0; ECan 1; EIntr 1; ERun 0; ERun 0; ERun 0; ERun 1; ECan 1; ECan 0] s
   /\ kp s 0 = KDone /\ kp s 1 = KDone /\ rp s 0 = RDone true /\ rp s 1 = RDone true /\ running s = 0.
 Proof. eexists. split; [vm_compute; reflexivity|]. repeat split; vm_compute; reflexivity. Qed.
+
+(** ** The pipeline run: scheduler and runner together (Model/Pipe.v, a synchronised product of the scheduler's LTS of
+    C01-C03 and the runner's LTS above; [preach c n es s]: any interleaving [es] of loop visits, Run steps of the stage
+    goroutines, interruptions, status writes, Cancel calls from outside and by the loop after a stage-condition error) *)
+
+(* every composed execution is an execution of each component: all theorems of C01-C03 and the ones above apply to it *)
+Theorem C12_pipeline_projects_onto_components : forall c n es s, preach c n es s ->
+  exists es1 es2, exec c es1 (sc s) /\ xreach n es2 (xr s).
+Proof. exact preach_components. Qed.
+Print Assumptions C12_pipeline_projects_onto_components.
+
+Theorem C12_pipeline_flag_and_context_agree : forall c n es s, preach c n es s -> Sched.cancelled (sc s) = Cancel.cancelled (xr s).
+Proof. exact pipe_flags_agree. Qed.
+Print Assumptions C12_pipeline_flag_and_context_agree.
+
+(* once the run is cancelled - from outside or by a stage-condition error - no command of any stage starts any more,
+   whatever the polling loop still visits and whichever stages it still hands to the runner *)
+Theorem C12_pipeline_nothing_starts_after_cancel : forall c n es0 s es s', preach c n es0 s -> Sched.cancelled (sc s) = true ->
+  prun c n s es = Some s' -> xtrace (xr s') = xtrace (xr s).
+Proof. exact pipe_nothing_starts_after_cancel. Qed.
+Print Assumptions C12_pipeline_nothing_starts_after_cancel.
+
+Theorem C12_pipeline_stage_started_after_cancel_fails : forall c n es s i s1 s2, preach c n es s -> Sched.cancelled (sc s) = true ->
+  rp (xr s) i = RNew -> pstep c n s (PRun i) = Some s1 -> pstep c n s1 (PRun i) = Some s2 -> rp (xr s2) i = RLeaving true.
+Proof. exact pipe_run_after_cancel_fails. Qed.
+Print Assumptions C12_pipeline_stage_started_after_cancel_fails.
+
+(* a stage is recorded as successful only if every command of its task was started and none was interrupted *)
+Theorem C12_pipeline_stage_success_means_everything_ran : forall c n es s i, preach c n es s -> In (ORet i true) (log (sc s)) ->
+  forall k, k < n i -> In (XStart i k) (xtrace (xr s)).
+Proof. exact pipe_stage_success_means_everything_ran. Qed.
+Print Assumptions C12_pipeline_stage_success_means_everything_ran.
+
+(* the polling loop blocked in the Cancel it called itself is never dead-locked, and a cancelled run can leave the loop *)
+Theorem C12_pipeline_blocked_loop_is_not_stuck : forall c n es s j, preach c n es s -> blk s = Some j ->
+  (exists s', pstep c n s PLoopCan = Some s') \/ (exists i s', active (rp (xr s) i) = true /\ pstep c n s (PRun i) = Some s').
+Proof. exact pipe_blocked_loop_is_not_stuck. Qed.
+Print Assumptions C12_pipeline_blocked_loop_is_not_stuck.
+Theorem C12_pipeline_cancelled_run_can_return : forall c n es s, preach c n es s -> Sched.cancelled (sc s) = true -> blk s = None ->
+  fatal (sc s) = false -> exited (sc s) = false -> exists s', pstep c n s PExit = Some s'.
+Proof. exact pipe_cancelled_can_exit. Qed.
+Print Assumptions C12_pipeline_cancelled_run_can_return.
+
+(* a Run call is in progress only while its stage is Running: with C01 every command of a stage starts after all the
+   stage's dependencies have finished *)
+Theorem C12_pipeline_commands_only_in_running_stage : forall c n es s i, preach c n es s -> active (rp (xr s) i) = true -> st (sc s) i = Running.
+Proof. exact pipe_run_only_in_running_stage. Qed.
+Print Assumptions C12_pipeline_commands_only_in_running_stage.
+
+(* non-vacuity: (1) a chain 0 <- 1, stage 0 interrupted in its first command by a Cancel from outside: stage 0 Error,
+   stage 1 Canceled, one command started in all; (2) a stage whose condition cannot be evaluated next to a stage in flight:
+   the loop blocks in its own Cancel until that stage has been interrupted and has left *)
+Definition pchain : config := [mkStage [] false CNone; mkStage [0] false CNone].
+Example C12_pipeline_nonvacuous_ext : exists s,
+  preach pchain (fun _ => 2) [PVisit 0; PRun 0; PRun 0; PRun 0; PExt 0; PVisit 1; PIntr 0; PRun 0; PExt 0; PRet 0; PVisit 1; PExit] s
+  /\ kp (xr s) (ext_id 0) = KDone /\ xtrace (xr s) = [XStart 0 0] /\ st (sc s) 0 = Error /\ st (sc s) 1 = Canceled
+  /\ exited (sc s) = true /\ gerr (sc s) = true.
+Proof. eexists. split; [vm_compute; reflexivity|]. repeat split; vm_compute; reflexivity. Qed.
+Definition pcerr : config := [mkStage [] false CErr; mkStage [] false CNone].
+Example C12_pipeline_nonvacuous_conderr : exists s1 s,
+  preach pcerr (fun _ => 1) [PVisit 1; PRun 1; PRun 1; PRun 1; PVisit 0] s1 /\ blk s1 = Some (loop_id 0) /\
+  pstep pcerr (fun _ => 1) s1 PLoopCan = None /\ pstep pcerr (fun _ => 1) s1 PExit = None /\
+  prun pcerr (fun _ => 1) s1 [PIntr 1; PRun 1; PLoopCan; PRet 1; PExit] = Some s /\
+  st (sc s) 0 = Error /\ st (sc s) 1 = Error /\ exited (sc s) = true /\ gerr (sc s) = true /\ running (xr s) = 0.
+Proof.
+  eexists. eexists. split; [vm_compute; reflexivity|].
+  repeat match goal with |- _ /\ _ => split end; vm_compute; reflexivity.
+Qed.
 
 (* the pinned hand-shake (doneCh): Cancel with nothing in flight waits for ever; two runs in flight panic *)
 Theorem C12_pinned_refuted_deadlock : exists s, lrun (fun _ => 1) linit [ECan 0] = Some s
@@ -60,7 +128,12 @@ Theorem C12_pinned_refuted_double_close : exists s,
 Proof. eexists. split; vm_compute; reflexivity. Qed.
 Print Assumptions C12_pinned_refuted_double_close.
 
-(* Not exhibited by the model (observed by the harness only): that SIGINT/SIGKILL really terminate the commands, the 2 s
+(* The synchronisation of Model/Pipe.v (which stage's Run is which run, Scheduler.Cancel = flag + runner Cancel, the loop
+   blocked inside its own Cancel) is tied to the code by the pipeline scenarios of the check (pipeline-ext-*, pipeline-conderr-*,
+   ...-then-cancel, sched-cancelled-before-run, nested-conderr-cli): their observations are judged by the consequences proved
+   above (no start after a completed Cancel, success only with every command started, the run returns).  A stage that is itself
+   a pipeline is outside Model/Pipe.v.
+   Not exhibited by the model (observed by the harness only): that SIGINT/SIGKILL really terminate the commands, the 2 s
    kill grace of mvdan/sh, "bounded time" in wall-clock terms.  The model's environment rule is: a command in progress when
    the context is cancelled ends (interrupted or completed) - it is the hypothesis under which C12_executions_are_bounded
    speaks about the real runner. *)
